@@ -148,6 +148,7 @@ def run(ctx, res):
     for kind, label, x in cases:
         res.dist(kind)
         text = x.decode("utf-8-sig", "replace") if isinstance(x, bytes) else x
+        T.fresh_cache()
         o1, log1, comps1 = T.impl_parse(x, multiple=True)
         row = {"kind": kind, "label": label, "x": text, "o1": o1}
         nontriv = isinstance(o1, list) and o1 and o1[0] != "err" and any(any(True for _ in values_of(c)) for c in o1)
@@ -177,8 +178,12 @@ def run(ctx, res):
             if all(isinstance(s, str) for s in sers) and sers:
                 s1 = "".join(sers)
                 row["s1"] = s1
+                T.fresh_cache()
                 o2, log2, comps2 = T.impl_parse(s1, multiple=True)
                 row["o2"] = o2
+                # the decoded Python values of both trees (the wire-text observation cannot see a date-time that
+                # came back as a date with the same text)
+                row["py_same"] = comps2 is None or [T.obs_py(c) for c in comps1] == [T.obs_py(c) for c in comps2]
                 reqs.append(T.parse_req(s1, True, log2))
                 row["nreq"] += 1
                 # the guards of theorem C01_stable and its prediction (normal form), under the decoder oracle of s1
@@ -218,6 +223,10 @@ def run(ctx, res):
         o1n = [strip_errs(c) for c in row["o1"]]
         o2 = row["o2"]
         stable = isinstance(o2, list) and o2[:1] != ["err"] and [strip_errs(c) for c in o2] == o1n and row.get("s2") == row["s1"]
+        if stable and not row.get("py_same", True):
+            res.fail("C01 lossless: the second parse holds other Python values than the first although names, parameters and "
+                     "wire texts agree", {"kind": row["kind"], "label": row["label"], "x": row["x"][:2000]})
+            continue
         g = row.get("guards")
         in_guard = bool(g) and all(isinstance(x, list) and len(x) == 3 and x[0] == 1 and x[1] == 1 for x in g)
         if in_guard:
